@@ -48,7 +48,10 @@ def make_lattice(variant=0):
     E = mk('E', (B,))
     F = mk('F', (object,))
     G = mk('G', (E, F))
-    return {'A': A, 'B': B, 'C': C, 'D': D, 'E': E, 'F': F, 'G': G}
+    lat = {'A': A, 'B': B, 'C': C, 'D': D, 'E': E, 'F': F, 'G': G}
+    if variant < 0:
+        lat['O'] = object        # only in histories that run in a fork of their own (a printer for object affects everything)
+    return lat
 
 
 def make_printer(tag):
@@ -68,7 +71,10 @@ class Model:
         self.preds = []       # (name, tag) in registration order
 
     def mro(self, n):
-        return [c.__name__ for c in self.lat[n].__mro__ if c is not object]
+        names = [c.__name__ for c in self.lat[n].__mro__ if c is not object]
+        if 'O' in self.lat:
+            names.append('O')
+        return names
 
     def reg_class(self, n, tag):
         self.direct[n] = tag
@@ -89,7 +95,7 @@ class Model:
 
     def lookup_promotion(self, n, superclasses):
         """mirrors WHEN a pending registration moves to the live registry (needed to predict later check_deferred=False answers)"""
-        if n in self.direct:
+        if n in self.direct or n == 'O':
             return
         if n in self.pending:
             self.promote(n)
@@ -117,6 +123,8 @@ class Model:
 
     def expected_isreg(self, n, cs, cd, rd):
         """True / False / None (unconstrained)"""
+        if n == 'O':
+            return True          # object always has a printer (the repr fallback is registered for it)
         if n in self.direct:
             return True
         if cd and n in self.pending:
@@ -136,7 +144,7 @@ def live_projection(lat):
     reg = {}
     for n, cls in lat.items():
         fn = ppm.pretty_dispatch.registry.get(cls)
-        if fn is not None:
+        if fn is not None and fn is not ppm._BASE_DISPATCH:
             inner = fn.args[0] if hasattr(fn, 'args') else fn
             reg[n] = getattr(inner, 'tag', '?')
     pend = {}
@@ -150,7 +158,8 @@ def live_projection(lat):
 
 def run_history(ops, obs):
     """ops: list of tuples. Returns None or (key, message). obs: Counter-like dict for monitor statistics."""
-    lat = make_lattice(len(ops) + sum(len(o[1]) + ord(o[1][0]) for o in ops))
+    with_object = any(o[1] == 'O' for o in ops)
+    lat = make_lattice(-1 if with_object else len(ops) + sum(len(o[1]) + ord(o[1][0]) for o in ops))
     m = Model(lat)
     tagn = [0]
 
@@ -188,6 +197,10 @@ def run_history(ops, obs):
                 if got != repr(inst):
                     return ('dispatch-wrong', 'step %d %r: no registration applies, expected repr, got %r' % (step, op, got))
                 obs['prints falling back to repr'] += 1
+            elif n == 'O' and 'O' in m.pending and 'O' not in m.direct and got == ([t for pn, t in m.preds if pn in m.mro(n)] + [repr(inst)])[0]:
+                # object itself always holds the built-in fallback (predicates, then repr) as a direct registration; with a by-name registration pending
+                # on top of it the statement does not order the two (same rule as for any class holding both kinds)
+                obs['prints with direct+deferred ambiguity'] += 1
             else:
                 if got not in want:
                     return ('dispatch-wrong', 'step %d %r: printer %r ran, the model allows %r' % (step, op, got, sorted(want)))
@@ -313,11 +326,35 @@ def run_shard(sh):
         if i % 2500 == 0:
             sh.sample({'history': [list(o) for o in ops]})
     flush()
+    # histories that register printers for `object` itself (catch-all): global effect, so each runs in a fork of its own
+    full_o = alphabet(NAMES + ['O'])
+    for i in range(500 if quick else 8000):
+        idx += 1
+        if not sh.mine(idx):
+            continue
+        rng = V.rng_for('c15o', sh.seed, i)
+        regs = [o for o in full_o if o[0].startswith('reg')]
+        prints = [o for o in full_o if o[0] == 'print']
+        queries = [o for o in full_o if o[0] == 'isreg']
+        ops = [rng.choice([('regc', 'O'), ('regn', 'O'), ('regp', 'O'), ('regc', 'O')])]
+        ops += [rng.choice(regs if rng.random() < 0.35 else (prints if rng.random() < 0.5 else queries)) for _ in range(rng.randint(2, 9))]
+        rng.shuffle(ops)
+        ops = tuple(ops)
+        status, res = fork_call(batch, [ops], timeout=300)
+        if status != 'ok':
+            sh.inconclusive.append('object history %s: %s' % (status, str(res)[:200]))
+            continue
+        obs, viol = res
+        sh.counters.update(obs)
+        sh.counters['histories with a printer registered for object'] += 1
+        for key, msg, ops_ in viol:
+            sh.violation(key, msg, {'history': [list(o) for o in ops_]})
+        sh.case(ops, True)
 
 
 def finalize(m):
     for name in ('prints dispatched to a tagged printer', 'prints falling back to repr', 'is_registered answers verified', 'state hook comparisons',
-                 'invalid flag combination rejected', 'prints with direct+deferred ambiguity'):
+                 'invalid flag combination rejected', 'prints with direct+deferred ambiguity', 'histories with a printer registered for object'):
         if not m.counters.get(name):
             m.inconclusive.append('monitor never reached: ' + name)
 
